@@ -6,10 +6,15 @@
      count : references_count.load
      read  : dereference (a plain read of the pooled value; the harness adds a yield point)
    The value was created with `new_with_clones::<K>` before the run (count = K), its handles distributed over the threads.
-   Threads are 0..T-1 (the sums below range over them). *)
+   Threads are 0..T-1 (the sums below range over them).
+   BORROWED handle: `perm` handles (0 or 1 in the harness) are owned by no acting thread - the environment keeps them alive
+   for the whole run and the threads use them by shared reference (`&OgreArc`):
+     sclone : references_count.fetch_add(1) through the borrowed handle - the new handle belongs to the cloning thread
+     scount : references_count.load through the borrowed handle
+   Both need no handle of the thread's own; plain clone / drop / count / read keep requiring one. *)
 From RM Require Import Util RingModel FullSync.
 
-Inductive rop := RClone | RDrop | RCount | RRead.
+Inductive rop := RClone | RDrop | RCount | RRead | RSClone | RSCount.
 Inductive rres := RCloned | RDropped (last : bool) | RCountIs (n : Z) | RReadOk (v : Z) | RNoHandle.
 Inductive rpc := RIdle | RC | RD0 | RDF | RDD | RCnt | RRd | RNo.
 
@@ -17,7 +22,8 @@ Record rst := {
   cnt : Z; freed : bool; deallocs : Z; val : Z;
   hnd : nat -> Z;                         (* live handles owned by each thread *)
   rthr : nat -> rpc; rlog : list (nat * rres);
-  fl : fsst                               (* the pool's free list *)
+  fl : fsst;                              (* the pool's free list *)
+  perm : Z                                (* handles the environment holds during the whole run (borrowed by the threads) *)
 }.
 
 Section Arc.
@@ -25,7 +31,7 @@ Variable N : Z.        (* POOL_SIZE *)
 Variable id : Z.       (* the slot id of the value *)
 
 Definition rset (s : rst) c f d h th l q : rst :=
-  {| cnt := c; freed := f; deallocs := d; val := val s; hnd := h; rthr := th; rlog := l; fl := q |}.
+  {| cnt := c; freed := f; deallocs := d; val := val s; hnd := h; rthr := th; rlog := l; fl := q; perm := perm s |}.
 
 Definition rstep (s : rst) (t : nat) : rst :=
   match rthr s t with
@@ -47,17 +53,25 @@ Definition rstep (s : rst) (t : nat) : rst :=
   | RNo => rset s (cnt s) (freed s) (deallocs s) (hnd s) (upd (rthr s) t RIdle) (rlog s ++ [(t, RNoHandle)]) (fl s)
   end.
 
-(* an operation on a handle needs a handle; `drop` consumes it right away *)
+(* an operation on a handle needs a handle: one of the thread's own (`drop` consumes it right away), or - sclone / scount -
+   the borrowed one *)
+Definition rgo (s : rst) (t : nat) (p : rpc) : rst :=
+  rset s (cnt s) (freed s) (deallocs s) (hnd s) (upd (rthr s) t p) (rlog s) (fl s).
 Definition rstart (s : rst) (t : nat) (o : rop) : rst :=
   match rthr s t with
   | RIdle =>
-      if hnd s t <=? 0 then rset s (cnt s) (freed s) (deallocs s) (hnd s) (upd (rthr s) t RNo) (rlog s) (fl s)
-      else match o with
-           | RClone => rset s (cnt s) (freed s) (deallocs s) (hnd s) (upd (rthr s) t RC) (rlog s) (fl s)
-           | RDrop => rset s (cnt s) (freed s) (deallocs s) (upd (hnd s) t (hnd s t - 1)) (upd (rthr s) t RD0) (rlog s) (fl s)
-           | RCount => rset s (cnt s) (freed s) (deallocs s) (hnd s) (upd (rthr s) t RCnt) (rlog s) (fl s)
-           | RRead => rset s (cnt s) (freed s) (deallocs s) (hnd s) (upd (rthr s) t RRd) (rlog s) (fl s)
-           end
+      match o with
+      | RSClone => rgo s t (if 1 <=? perm s then RC else RNo)
+      | RSCount => rgo s t (if 1 <=? perm s then RCnt else RNo)
+      | _ =>
+        if hnd s t <=? 0 then rgo s t RNo
+        else match o with
+             | RDrop => rset s (cnt s) (freed s) (deallocs s) (upd (hnd s) t (hnd s t - 1)) (upd (rthr s) t RD0) (rlog s) (fl s)
+             | RCount => rgo s t RCnt
+             | RRead => rgo s t RRd
+             | _ => rgo s t RC
+             end
+      end
   | _ => s
   end.
 
@@ -119,18 +133,21 @@ Definition needs_handle (p : rpc) : bool := match p with RC | RCnt | RRd => true
 Definition reads_ok (v0 : Z) (l : list (nat * rres)) : Prop := forall t v, In (t, RReadOk v) l -> v = v0.
 
 Record RInv (s : rst) : Prop := {
-  (* B.3: the counter is the number of live handles plus the drops that consumed their handle but did not decrement yet *)
-  v_count : cnt s = hsum (hnd s) T + dcount (rthr s) T;
+  (* B.3: the counter is the number of live handles (the threads' and the borrowed ones) plus the drops that consumed their
+     handle but did not decrement yet *)
+  v_count : cnt s = hsum (hnd s) T + dcount (rthr s) T + perm s;
   v_nonneg : forall u, 0 <= hnd s u;
   v_above : forall u, (T <= u)%nat -> rthr s u = RIdle /\ hnd s u = 0;
-  v_needs : forall u, needs_handle (rthr s u) = true -> 1 <= hnd s u;
+  (* a thread inside a clone / count / read is protected by a handle of its own or by the borrowed one *)
+  v_needs : forall u, needs_handle (rthr s u) = true -> 1 <= hnd s u \/ 1 <= perm s;
   (* the thread whose decrement read 1 is unique; from then on no handle and no pending drop exists *)
   v_last : forall u, after_last (rthr s u) = true -> cnt s = 0;
   v_uniq : forall u w, after_last (rthr s u) = true -> after_last (rthr s w) = true -> u = w;
   v_freed : freed s = true -> cnt s = 0 /\ forall u, after_last (rthr s u) = false;
   v_deallocs : deallocs s = if freed s then 1 else 0;
   v_zero : cnt s = 0 -> freed s = true \/ exists u, after_last (rthr s u) = true;
-  v_reads : reads_ok (val s) (rlog s)
+  v_reads : reads_ok (val s) (rlog s);
+  v_perm : 0 <= perm s
 }.
 
 Lemma below_T s u : RInv s -> rthr s u <> RIdle -> (u < T)%nat.
@@ -140,7 +157,14 @@ Lemma cnt_pos_handle s u : RInv s -> 1 <= hnd s u -> 1 <= cnt s.
 Proof.
   intros I H. assert (Hu : (u < T)%nat).
   { destruct (Nat.lt_ge_cases u T); [assumption|]. destruct (v_above _ I u); lia. }
-  rewrite (v_count _ I). pose proof (hsum_ge (hnd s) T u (v_nonneg _ I) Hu). pose proof (dcount_nonneg (rthr s) T). lia.
+  rewrite (v_count _ I). pose proof (hsum_ge (hnd s) T u (v_nonneg _ I) Hu). pose proof (dcount_nonneg (rthr s) T).
+  pose proof (v_perm _ I). lia.
+Qed.
+
+Lemma cnt_pos_prot s u : RInv s -> 1 <= hnd s u \/ 1 <= perm s -> 1 <= cnt s.
+Proof.
+  intros I [H|H]; [now apply (cnt_pos_handle s u)|].
+  rewrite (v_count _ I). pose proof (hsum_nonneg (hnd s) T (v_nonneg _ I)). pose proof (dcount_nonneg (rthr s) T). lia.
 Qed.
 
 Lemma no_after_last s : RInv s -> 1 <= cnt s -> freed s = false /\ forall u, after_last (rthr s u) = false.
@@ -150,23 +174,47 @@ Proof.
   - intros u. destruct (after_last (rthr s u)) eqn:Ea; [|reflexivity]. pose proof (v_last _ I u Ea). lia.
 Qed.
 
+Lemma dcount_idle_all th n : (forall u, th u = RIdle) -> dcount th n = 0.
+Proof. intros H. induction n as [|k IH]; cbn; [reflexivity|]. rewrite H. lia. Qed.
+
+Lemma count_quiescent s : RInv s -> (forall u, rthr s u = RIdle) -> cnt s = hsum (hnd s) T + perm s.
+Proof. intros I Hq. rewrite (v_count _ I), (dcount_idle_all _ _ Hq). lia. Qed.
+
+(* while the environment holds a (borrowed) handle the value is never given back *)
+Lemma perm_keeps_alive s : RInv s -> 1 <= perm s -> freed s = false /\ forall u, after_last (rthr s u) = false.
+Proof. intros I H. apply no_after_last; [assumption|]. apply (cnt_pos_prot s 0%nat I). now right. Qed.
+
+Lemma dealloc_at_last_drop s : RInv s ->
+  deallocs s = (if freed s then 1 else 0) /\
+  (freed s = true -> cnt s = 0 /\ hsum (hnd s) T = 0 /\ perm s = 0) /\
+  (forall u, 1 <= hnd s u -> freed s = false) /\
+  (1 <= perm s -> freed s = false).
+Proof.
+  intros I. split; [apply (v_deallocs _ I)|]. split; [|split].
+  - intros Hf. destruct (v_freed _ I Hf) as [H0 _]. split; [assumption|].
+    pose proof (v_count _ I). pose proof (dcount_nonneg (rthr s) T). pose proof (hsum_nonneg (hnd s) T (v_nonneg _ I)).
+    pose proof (v_perm _ I). lia.
+  - intros u Hu. pose proof (cnt_pos_handle s u I Hu) as H. now destruct (no_after_last s I H).
+  - intros Hp. now destruct (perm_keeps_alive s I Hp).
+Qed.
+
 Lemma reads_snoc v0 l t r : reads_ok v0 l -> (forall v, r = RReadOk v -> v = v0) -> reads_ok v0 (l ++ [(t, r)]).
 Proof. intros H Hr u v Hin. apply in_app_or in Hin. destruct Hin as [Hin|[Hin|[]]]; [eapply H; eauto|]. injection Hin as _ ->. now apply Hr. Qed.
 
-Ltac rr := cbn [cnt freed deallocs val hnd rthr rlog fl rset] in *.
+Ltac rr := cbn [cnt freed deallocs val hnd rthr rlog fl perm rset] in *.
 
 Lemma rinv_step s t : RInv s -> RInv (rstep N id s t).
 Proof.
-  intros I. pose proof I as I0. destruct I as [Hc Hn Ha Hnd Hl Hu Hf Hd Hz Hr]. unfold rstep.
+  intros I. pose proof I as I0. destruct I as [Hc Hn Ha Hnd Hl Hu Hf Hd Hz Hr Hp]. unfold rstep.
   pose proof (dcount_nonneg (rthr s) T) as Hdn.
   destruct (rthr s t) eqn:E; [exact I0| | | | | | |];
     assert (Ht : (t < T)%nat) by (apply (below_T s t I0); rewrite E; discriminate).
   - (* RC *)
-    assert (Hh : 1 <= hnd s t) by (apply Hnd; rewrite E; reflexivity).
-    pose proof (cnt_pos_handle s t I0 Hh) as Hpos. destruct (no_after_last s I0 Hpos) as [Hnf Hnal].
+    assert (Hh : 1 <= hnd s t \/ 1 <= perm s) by (apply Hnd; rewrite E; reflexivity).
+    pose proof (cnt_pos_prot s t I0 Hh) as Hpos. destruct (no_after_last s I0 Hpos) as [Hnf Hnal].
     constructor; rr; auto.
     + rewrite hsum_upd, dcount_upd by assumption. rewrite E. cbn. lia.
-    + intros u. upd_cases t u; [lia|apply Hn].
+    + intros u. upd_cases t u; [pose proof (Hn t); lia|apply Hn].
     + intros u Hge. rewrite !upd_other by lia. apply Ha, Hge.
     + intros u. upd_cases t u; [discriminate|apply Hnd].
     + intros u. upd_cases t u; [discriminate|]. rewrite Hnal. discriminate.
@@ -234,8 +282,8 @@ Proof.
     + intros H0. destruct (Hz H0) as [H|[u H]]; [now left|right]. exists u. upd_cases t u; [rewrite E in H; discriminate|assumption].
     + apply reads_snoc; [assumption|discriminate].
   - (* RRd: the handle is live, so the value is still there *)
-    assert (Hh : 1 <= hnd s t) by (apply Hnd; rewrite E; reflexivity).
-    pose proof (cnt_pos_handle s t I0 Hh) as Hpos. destruct (no_after_last s I0 Hpos) as [Hnf Hnal].
+    assert (Hh : 1 <= hnd s t \/ 1 <= perm s) by (apply Hnd; rewrite E; reflexivity).
+    pose proof (cnt_pos_prot s t I0 Hh) as Hpos. destruct (no_after_last s I0 Hpos) as [Hnf Hnal].
     constructor; rr; auto.
     + rewrite dcount_upd by assumption. rewrite E. cbn. lia.
     + intros u Hge. rewrite upd_other by lia. apply Ha, Hge.
@@ -259,11 +307,11 @@ Qed.
 
 Lemma rinv_start s t o : (t < T)%nat -> RInv s -> RInv (rstart s t o).
 Proof.
-  intros Ht I. pose proof I as I0. destruct I as [Hc Hn Ha Hnd Hl Hu Hf Hd Hz Hr]. unfold rstart.
+  intros Ht I. pose proof I as I0. destruct I as [Hc Hn Ha Hnd Hl Hu Hf Hd Hz Hr Hp]. unfold rstart.
   destruct (rthr s t) eqn:E; try exact I0.
-  assert (Hloc : forall p, isD0 p = 0 -> after_last p = false -> (needs_handle p = true -> 1 <= hnd s t) ->
-            RInv (rset s (cnt s) (freed s) (deallocs s) (hnd s) (upd (rthr s) t p) (rlog s) (fl s))).
-  { intros p H0 H1 H2. constructor; rr; auto.
+  assert (Hloc : forall p, isD0 p = 0 -> after_last p = false -> (needs_handle p = true -> 1 <= hnd s t \/ 1 <= perm s) ->
+            RInv (rgo s t p)).
+  { intros p H0 H1 H2. unfold rgo. constructor; rr; auto.
     - rewrite dcount_upd by assumption. rewrite E, H0. cbn. lia.
     - intros u Hge. rewrite upd_other by lia. apply Ha, Hge.
     - intros u. upd_cases t u; [exact H2|apply Hnd].
@@ -271,8 +319,11 @@ Proof.
     - intros u w. upd_cases t u; [rewrite H1; discriminate|]. upd_cases t w; [rewrite H1; discriminate|apply Hu].
     - intros Hfr. destruct (Hf Hfr) as [Hz0 H]. split; [assumption|]. intros u. upd_cases t u; [exact H1|apply H].
     - intros Hz0. destruct (Hz Hz0) as [H|[u H]]; [now left|right]. exists u. upd_cases t u; [rewrite E in H; discriminate|assumption]. }
-  destruct (Z.leb_spec (hnd s t) 0) as [Hle|Hgt]; [apply Hloc; auto; discriminate|].
-  destruct o; try (apply Hloc; auto; intros; lia).
+  assert (Hsh : forall p, isD0 p = 0 -> after_last p = false -> RInv (rgo s t (if 1 <=? perm s then p else RNo))).
+  { intros p H0 H1. destruct (Z.leb_spec 1 (perm s)) as [Hge|Hlt]; apply Hloc; auto; discriminate. }
+  destruct o; try (apply Hsh; reflexivity);
+    (destruct (Z.leb_spec (hnd s t) 0) as [Hle|Hgt]; [apply Hloc; auto; discriminate|]);
+    try (apply Hloc; auto; intros; lia).
   (* drop: the handle is consumed here *)
   pose proof (cnt_pos_handle s t I0 ltac:(lia)) as Hpos. destruct (no_after_last s I0 Hpos) as [Hnf Hnal].
   constructor; rr; auto.
@@ -294,15 +345,18 @@ Section ArcReach.
 Variable N : Z.
 Variable id : Z.
 Variable T : nat.
-Variable h0 : nat -> Z.               (* initial distribution of the K handles created by new_with_clones *)
+Variable h0 : nat -> Z.               (* initial distribution of the handles created by new_with_clones over the threads *)
+Variable p0 : Z.                      (* ... and how many of them the environment keeps (borrowed by the threads) *)
 Variable v0 : Z.
 Variable fl0 : fsst.
 Hypothesis h0_nonneg : forall u, 0 <= h0 u.
 Hypothesis h0_above : forall u, (T <= u)%nat -> h0 u = 0.
-Hypothesis h0_some : 1 <= hsum h0 T.
+Hypothesis p0_nonneg : 0 <= p0.
+Hypothesis h0_some : 1 <= hsum h0 T + p0.
 
 Definition rinit : rst :=
-  {| cnt := hsum h0 T; freed := false; deallocs := 0; val := v0; hnd := h0; rthr := fun _ => RIdle; rlog := []; fl := fl0 |}.
+  {| cnt := hsum h0 T + p0; freed := false; deallocs := 0; val := v0; hnd := h0; rthr := fun _ => RIdle; rlog := []; fl := fl0;
+     perm := p0 |}.
 
 Lemma dcount_idle_gen n : dcount (fun _ => RIdle) n = 0.
 Proof. induction n as [|k IH]; cbn; lia. Qed.
@@ -346,10 +400,16 @@ Fixpoint rrun (N id : Z) (s : rst) (progs : nat -> list rop) (sched : list nat) 
   | t :: rest => let '(s1, p1, lines) := rgrant N id s progs t in let '(s2, more) := rrun N id s1 p1 rest in (s2, lines ++ more)
   end.
 From RM Require Import PoolRun.
-(* the pool (full-sync free list, POOL_SIZE N) had its slot 0 allocated for the value: the free list holds 1..N-1 *)
-Definition run_arc (N : Z) (hs : list Z) (progs : list (list rop)) (sched : list nat) : list Z :=
+(* the pool (full-sync free list, POOL_SIZE N) had its slot 0 allocated for the value: the free list holds 1..N-1.
+   `p` handles (besides the threads' `hs`) are held by the environment during the whole run. *)
+Definition run_arc_gen (p : Z) (N : Z) (hs : list Z) (progs : list (list rop)) (sched : list nat) : list Z :=
   let fl0 := pfill fsst (fstep N u32) fstart finit (ids_upto N) 0 in
   let fl1 := fstep N u32 (fstep N u32 (fstart fl0 0%nat OpCons) 0%nat) 0%nat in
-  let s0 := {| cnt := fold_right Z.add 0 hs; freed := false; deallocs := 0; val := 4242; hnd := fun t => nth t hs 0; rthr := fun _ => RIdle; rlog := []; fl := fl1 |} in
+  let s0 := {| cnt := fold_right Z.add 0 hs + p; freed := false; deallocs := 0; val := 4242; hnd := fun t => nth t hs 0;
+               rthr := fun _ => RIdle; rlog := []; fl := fl1; perm := p |} in
   let '(s, lines) := rrun N 0 s0 (fun t => nth t progs []) sched in
   concat lines ++ [9; ftail (fl s) - fhead (fl s)].
+(* no borrowed handle: every operation goes through a handle of the acting thread *)
+Definition run_arc (N : Z) (hs : list Z) (progs : list (list rop)) (sched : list nat) : list Z := run_arc_gen 0 N hs progs sched.
+(* harness mode `shared=1`: `sum hs` owned handles plus one handle that is alive throughout and borrowed by the threads *)
+Definition run_arc_shared (N : Z) (hs : list Z) (progs : list (list rop)) (sched : list nat) : list Z := run_arc_gen 1 N hs progs sched.
